@@ -8,6 +8,7 @@ import logging
 import shutil
 import sqlite3
 import tempfile
+import time
 from pathlib import Path
 from typing import Any
 
@@ -118,7 +119,12 @@ def case_s(draw) -> dict[str, Any]:
         e["logging"] = draw(st.sampled_from([True, True, True, True, False]))
         exchanges.append(e)
     end = draw(st.sampled_from(["clean", "clean", "cancel", "raise"]))
-    return {"exchanges": exchanges, "end": end, "end_at": draw(st.integers(0, n))}
+    case = {"exchanges": exchanges, "end": end, "end_at": draw(st.integers(0, n))}
+    if end == "clean" and draw(st.integers(0, 3)) == 0:
+        logged = sum(1 for e in exchanges if e["logging"])
+        if logged:
+            case["db_locked"] = [logged - 1]
+    return case
 
 
 def build(e: dict[str, Any]) -> tuple[Any, bytes, bytes | None]:
@@ -170,6 +176,29 @@ def run_history(case: dict[str, Any], dbpath: Path) -> dict[str, Any]:
         await db.connect()
         await db.insert_run_meta("vf.c11", BaseCommandConfig(), datetime.now(UTC).astimezone(), None)
         await db.insert_scan_run("tcp-lines://192.0.2.9:1")
+        # the database file is briefly locked by another process: the n-th write of an exchange fails once with OperationalError
+        # (only for the last exchange of the history - a retried row in the middle may legitimately get a later row id)
+        locked = set(case.get("db_locked") or [])
+        if locked:
+            import aiosqlite
+
+            real_execute = db.connection.execute
+            seen_inserts: dict[str, Any] = {"n": 0, "until": {}}
+
+            async def flaky_execute(query: str, *a: Any, **kw: Any) -> Any:
+                if "INSERT INTO scan_result" in query:
+                    k = seen_inserts["n"]
+                    if k in locked:
+                        # the lock lasts 60 ms from the first attempt; every attempt inside that window fails after a thread
+                        # round trip, as a real execute() would
+                        until = seen_inserts["until"].setdefault(k, time.monotonic() + 0.06)
+                        if time.monotonic() < until:
+                            await asyncio.sleep(0.002)
+                            raise aiosqlite.OperationalError("database is locked")
+                    seen_inserts["n"] += 1
+                return await real_execute(query, *a, **kw)
+
+            db.connection.execute = flaky_execute  # type: ignore[method-assign]
         tr = HistTransport()
         ecu = ECU(tr, timeout=0.2, max_retry=0)  # type: ignore[arg-type]
         ecu.retry_wait = 0.001
@@ -359,7 +388,7 @@ def check(case: dict[str, Any]) -> list[tuple[str, str]]:
     must = [e for e in sent if e["logged"] and e["kind"] != "hang"]
     may = [e for e in sent if e["logged"] and e["kind"] == "hang"]
     ctx = f"end={case['end']}@{case['end_at']} exchanges={[(e['request'][:12], e['kind'], e['logged']) for e in sent]}"
-    lost = [w for w in rec["warnings"] if "Could not log messages to database" in w]
+    lost = [w for w in rec["warnings"] if "Could not log messages to database" in w and "Retrying" not in w]
     if lost:
         import re
 
